@@ -11,8 +11,14 @@ import (
 	"encoding/json"
 	"fmt"
 	"os"
+	"sync"
 	"time"
 )
+
+// vfModelMu: library goroutines left over from an earlier replay in the same test process
+// (a post-processing goroutine of a session nobody closed) may still call fillRand/currentMs
+// while the next model is being loaded; the model map is therefore swapped under a lock.
+var vfModelMu sync.RWMutex
 
 type vfModelFile struct {
 	Harness string              `json:"harness"`
@@ -43,10 +49,13 @@ func vfLoadModel(path string) error {
 	if err != nil {
 		return err
 	}
-	vfModel = vfModelFile{}
-	if err := json.Unmarshal(b, &vfModel); err != nil {
+	var m vfModelFile
+	if err := json.Unmarshal(b, &m); err != nil {
 		return err
 	}
+	vfModelMu.Lock()
+	vfModel = m
+	vfModelMu.Unlock()
 	vfTierLevel = vfModel.Tier
 	vfFailures, vfAssumeFails, vfReached = nil, nil, nil
 	vfClockBase, vfClockReads, vfClockSlk, vfClockIsSet = 0, 0, 0, false
@@ -55,7 +64,11 @@ func vfLoadModel(path string) error {
 	return nil
 }
 
-func vfVal(name string) uint64 { return vfModel.Vars[name] }
+func vfVal(name string) uint64 {
+	vfModelMu.RLock()
+	defer vfModelMu.RUnlock()
+	return vfModel.Vars[name]
+}
 
 func vfU8(name string) uint8   { return uint8(vfVal(name)) }
 func vfU16(name string) uint16 { return uint16(vfVal(name)) }
@@ -80,7 +93,9 @@ func vfPick(name string, lo, hi int) int { return vfIntRange(name, lo, hi) }
 func vfConcrete(v int) int { return v }
 
 func vfBytes(name string, n int) []byte {
+	vfModelMu.RLock()
 	a := vfModel.Arrays[name]
+	vfModelMu.RUnlock()
 	b := make([]byte, n)
 	for i := range b {
 		if i < len(a) {
@@ -161,6 +176,8 @@ func vfObserve(label string, v int) {
 type vfRandReader struct{}
 
 func (vfRandReader) Read(p []byte) (int, error) {
+	vfModelMu.RLock()
+	defer vfModelMu.RUnlock()
 	vfRandCalls++
 	for i := range p {
 		if v, ok := vfModel.Vars[fmt.Sprintf("rand#%d_%d", vfRandCalls, i)]; ok {
